@@ -72,7 +72,7 @@ func runC01(c *ctx) error {
 			code = world.SHA512
 		}
 		d := world.NewDID(env.kp, env.tb, env.rng, code)
-		o := world.GenOpts{MinLen: 2, MaxLen: 10, Forged: true, DupCreates: true, EndDeactivate: 10, TimeDelta: env.dl}
+		o := world.GenOpts{MinLen: 2, MaxLen: 10, Forged: true, DupCreates: true, EndDeactivate: 10, TimeDelta: env.dl, SharedTime: i%3 == 0}
 		if i%9 == 8 {
 			o.MaxLen = 26
 		}
@@ -240,7 +240,7 @@ func runC04(c *ctx) error {
 			switch env.rng.Intn(4) {
 			case 0:
 				ty := []operation.Type{operation.TypeUpdate, operation.TypeRecover, operation.TypeDeactivate}[env.rng.Intn(3)]
-				ext = append(ext, world.Event{Op: world.Build(d.Forge(ty, world.ForgedKinds[env.rng.Intn(5)], j)), Label: "ext:forged"})
+				ext = append(ext, world.Event{Op: world.Build(d.Forge(ty, world.ForgedKinds[env.rng.Intn(len(world.ForgedKinds))], j)), Label: "ext:forged"})
 			case 1:
 				if len(olds) > 0 {
 					key := olds[env.rng.Intn(len(olds))]
